@@ -242,19 +242,22 @@ find_eol(const char *buffer, const size_t buflen, int *valid)
 }
 
 /**
- * read input until a line with a valid length is in buffer
- * @param has_cr if the previous buffer ended with CR
+ * read input until the end of a too long line is found
+ *
+ * The too long line ends at the first LF, no matter if it is preceeded by a
+ * CR or not. A stray CR does not end it: at the end of the buffer it can't be
+ * told apart from a CRLF pair that is split by the buffer end, so it must
+ * not make a difference elsewhere.
  *
  * This function will set errno to the proper error code before
  * returning.
  */
 static void
-loop_long(int has_cr)
+loop_long(void)
 {
-	const char *p;
+	const char *lf;
 	do {
-		int valid;
-		/* The idea here is to read input until we find a valid line end (CRLF),
+		/* The idea here is to read input until we find the line end,
 		 * drop everything until this point (i.e. the too long line) and keep
 		 * the rest in the buffer, but still return with an error code. */
 		linenlen = readinput(lineinbuf, sizeof(lineinbuf), 1);
@@ -264,26 +267,13 @@ loop_long(int has_cr)
 			linenlen = 0;
 			return;
 		}
-		/* detect if the linebreak is interrupted by buffer end */
-		if (has_cr && (lineinbuf[0] == '\n')) {
-			p = lineinbuf + 1;
-			linenlen--;
-			break;
-		}
-		has_cr = 0;
 
-		p = find_eol(lineinbuf, linenlen, &valid);
+		lf = memchr(lineinbuf, '\n', linenlen);
+	} while (lf == NULL);
 
-		if (!valid && (p == lineinbuf + linenlen) && (*(p - 1) == '\r')) {
-			/* we need to read more data */
-			has_cr = 1;
-		} else if (p != NULL) {
-			/* skip the broken part */
-			linenlen -= (p - lineinbuf);
-		}
-	} while ((p == NULL) || has_cr);
-
-	memcpy(lineinn, p, linenlen);
+	/* skip the too long line */
+	linenlen -= (lf + 1 - lineinbuf);
+	memcpy(lineinn, lf + 1, linenlen);
 	errno = E2BIG;
 }
 
@@ -374,11 +364,11 @@ net_read(const int fatal)
 		return 0;
 	} else if (p == NULL) {
 		/* the whole buffer is filled, but neither CR nor LF is found */
-		loop_long(0);
+		loop_long();
 		return -1;
 	} else if ((p == lineinbuf + sizeof(lineinbuf) - 1) && (*(p - 1) == '\r')) {
 		/* We found a CR, but a too long line. Let's find out if an LF will follow. */
-		loop_long(1);
+		loop_long();
 		return -1;
 	} else {
 		/* copy the rest of the input buffer back to lineinn, then return error */
